@@ -58,20 +58,23 @@ def entry_diff(a, b, skip=()):
     return out
 
 
-def data_contained(dst_segs, src_segs):
-    """every destination data page lies inside a source data run rounded to 4 KiB pages"""
-    rs = [(a & ~4095, (b + 4095) & ~4095) for a, b in (src_segs or [])]
+def data_contained(dst_segs, src_segs, size, min_hole=1 << 20):
+    """no destination data page lies inside a source hole of at least min_hole bytes (the property speaks of
+    holes of at least 1 MiB; smaller gaps are file-system rounding)"""
+    rs = sorted((a & ~4095, (b + 4095) & ~4095) for a, b in (src_segs or []))
+    holes = []
+    pos = 0
+    for x, y in rs:
+        if x - pos >= min_hole:
+            holes.append((pos, x))
+        pos = max(pos, y)
+    if size - pos >= min_hole:
+        holes.append((pos, size))
     for a, b in dst_segs or []:
-        pos = a
-        while pos < b:
-            hit = None
-            for x, y in rs:
-                if x <= pos < y:
-                    hit = y
-                    break
-            if hit is None:
-                return False, pos
-            pos = hit
+        for x, y in holes:
+            lo, hi = max(a, x), min(b, y)
+            if lo < hi:
+                return False, lo
     return True, None
 
 
@@ -110,9 +113,7 @@ def check_tree(res, verdict, inv, umask=0o022, t_start_ns=None, fault_exempt=(),
             continue  # the same inode is reachable through a destination path (hard link): overwriting it is legal
         q = post.get(p)
         under_dest = dest_n is not None and (p == dest_n or p.startswith(dest_n + "/")) and not is_source
-        if verdict.kind == "reject":
-            prop, cls = "C16", "rejected-but-changed"
-        elif under_dest:
+        if under_dest:
             prop, cls = ("C08", "existing-entry-altered") if fl.get("n") else ("C02", "unmapped-entry-altered")
         else:
             prop, cls = "C03", ("source-modified" if is_source else "bystander-modified")
@@ -120,6 +121,8 @@ def check_tree(res, verdict, inv, umask=0o022, t_start_ns=None, fault_exempt=(),
             if p in mapped_paths:
                 continue
             finds.append(Finding(prop, cls + feat_suffix(feat, p, pre, verdict), p, "entry vanished"))
+            if verdict.kind == "reject":
+                finds.append(Finding("C16", "rejected-but-changed:" + verdict.why, p, "entry vanished although the invocation is invalid"))
             continue
         skip = ()
         if e["k"] == "d" and (p in parents_touched or p in mapped_paths):
@@ -128,6 +131,8 @@ def check_tree(res, verdict, inv, umask=0o022, t_start_ns=None, fault_exempt=(),
         if d:
             finds.append(Finding(prop, cls + feat_suffix(feat, p, pre, verdict), p,
                                  "changed: %s (%s -> %s)" % (",".join(d), {k: e.get(k) for k in d}, {k: q.get(k) for k in d})))
+            if verdict.kind == "reject":
+                finds.append(Finding("C16", "rejected-but-changed:" + verdict.why, p, "changed although the invocation is invalid: %s" % ",".join(d)))
 
     # --- verdict specific -------------------------------------------------------------------------
     if verdict.kind == "reject":
@@ -205,7 +210,7 @@ def check_tree(res, verdict, inv, umask=0o022, t_start_ns=None, fault_exempt=(),
                     finds.append(Finding("C11", "holes-materialised" + suffix, p,
                                          "destination allocates %d bytes, source %d (%d data runs)" % (q["blocks"] * 512, spec["src_blocks"] * 512, nruns)))
                 else:
-                    okc, pos = data_contained(q["segs"], spec["segs"])
+                    okc, pos = data_contained(q["segs"], spec["segs"], spec.get("size") or 0)
                     if not okc:
                         finds.append(Finding("C11", "data-in-hole" + suffix, p, "destination has an allocated page at %d where the source has a hole" % pos))
         elif k == "l":
